@@ -2954,3 +2954,172 @@ Proof.
     apply all_ents_in in He'. destruct He' as (j & b & Hj & Hb).
     rewrite Hid, <- Hid'. rewrite (find_entry_unique t' j b e' HI' Hj Hb). apply N.eqb_eq. exact Hc.
 Qed.
+
+(* ================================================================ 21. activeReq = requests started and not yet answered *)
+
+Lemma aids_set_tips g ts : aids (set_tips g ts) = aids g.
+Proof. reflexivity. Qed.
+Lemma aids_rlist_set g l v : aids (rlist_set g l v) = aids g.
+Proof. destruct l; reflexivity. Qed.
+Lemma aids_mark a id : map fst (mark_detached a id) = map fst a.
+Proof. unfold mark_detached. rewrite map_map. apply map_ext. intros [i b]. simpl. destruct (i =? id); reflexivity. Qed.
+
+Lemma aids_move g dest e g' e' : move_to_list g dest e = Some (g', e') -> aids g' = aids g.
+Proof.
+  unfold move_to_list, rl_remove, rl_push. destruct (rl e) as [l|].
+  - destruct (rlist_eqb l dest); [intros X; inversion X; auto|].
+    destruct (find_ent _ _) as [[i x]|]; [|discriminate]. intros X; inversion X. rewrite !aids_rlist_set. reflexivity.
+  - intros X; inversion X. apply aids_rlist_set.
+Qed.
+Lemma aids_node_removed g e g' : node_removed g e = Some g' -> aids g' = aids g.
+Proof.
+  unfold node_removed, rl_remove. destruct (rl e) as [l|]; [|discriminate].
+  destruct (find_ent _ _) as [[i x]|]; [|discriminate]. intros X; inversion X. unfold aids. simpl.
+  rewrite aids_mark. destruct l; reflexivity.
+Qed.
+Lemma aids_add_ip g b ip g' b' ok : add_ip g b ip = (g', b', ok) -> aids g' = aids g.
+Proof. unfold add_ip. destruct (add_ip_s _ _ _) as [[ts bs] o]. intros X; inversion X. reflexivity. Qed.
+Lemma aids_remove_ip g b ip g' b' : remove_ip g b ip = (g', b') -> aids g' = aids g.
+Proof. unfold remove_ip. destruct (remove_ip_s _ _ _) as [ts bs]. intros X; inversion X. reflexivity. Qed.
+Lemma aids_swap_ip g b old new g' b' f : swap_ip g b old new = (g', b', f) -> aids g' = aids g.
+Proof.
+  unfold swap_ip. destruct (remove_ip g b old) as [g0 b0] eqn:E0. destruct (add_ip g0 b0 new) as [[g1 b1] ok] eqn:E1.
+  pose proof (aids_remove_ip _ _ _ _ _ E0). pose proof (aids_add_ip _ _ _ _ _ _ E1).
+  destruct ok; [intros X; inversion X; subst; congruence|].
+  destruct (add_ip g1 b1 old) as [[g2 b2] ok2] eqn:E2. pose proof (aids_add_ip _ _ _ _ _ _ E2). intros X; inversion X; subst; congruence.
+Qed.
+
+Lemma aids_bump g b nr inb g' b' fd ec : bump_in_bucket g b nr inb = Some (g', b', fd, ec) -> aids g' = aids g.
+Proof.
+  unfold bump_in_bucket. destruct (find_ent _ (ents b)) as [[i n]|]; [|intros X; inversion X; auto].
+  destruct (_ && negb inb); [intros X; inversion X; auto|].
+  destruct (if negb (nip nr =? nip (nd n)) then _ else _) as [[g1 b1] fits] eqn:PH.
+  assert (A1 : aids g1 = aids g).
+  { destruct (negb (nip nr =? nip (nd n))); [eapply aids_swap_ip; eauto|inversion PH; auto]. }
+  destruct fits; simpl negb; cbv iota; [|intros X; inversion X; subst; auto].
+  destruct (_ || _).
+  - destruct (move_to_list g1 Fast _) as [[g2 n2]|] eqn:MV; [|discriminate]. apply aids_move in MV. intros X; inversion X; subst. congruence.
+  - intros X; inversion X; subst; auto.
+Qed.
+
+Lemma aids_add_replacement g b n g' b' : add_replacement g b n = Some (g', b') -> aids g' = aids g.
+Proof.
+  unfold add_replacement. destruct (existsb _ _); [intros X; inversion X; auto|].
+  destruct (add_ip g b (nip n)) as [[g1 b1] ok] eqn:AI. pose proof (aids_add_ip _ _ _ _ _ _ AI).
+  destruct ok; simpl negb; cbv iota; [|intros X; inversion X; subst; auto].
+  destruct (push_node _ _ _) as [[l removed]|]; [|discriminate]. destruct removed as [r|]; [|intros X; inversion X; subst; auto].
+  destruct (remove_ip g1 (set_reps b1 l) (nip (nd r))) as [g3 b3] eqn:RI. pose proof (aids_remove_ip _ _ _ _ _ RI).
+  intros X; inversion X; subst. congruence.
+Qed.
+
+Lemma aids_add_node_b n inb force g b g' b' : add_node_b n inb force g b = Some (g', b') -> aids g' = aids g.
+Proof.
+  unfold add_node_b. destruct (bump_in_bucket g b n inb) as [[[[g1 b1] fd] ec]|] eqn:BP; [|discriminate].
+  pose proof (aids_bump _ _ _ _ _ _ _ _ BP). destruct fd; [intros X; inversion X; subst; auto|].
+  destruct (K_bucketSize <=? nlen (ents b1)); [intros AR; apply aids_add_replacement in AR; congruence|].
+  destruct (add_ip g1 b1 (nip n)) as [[g2 b2] ok] eqn:AI. pose proof (aids_add_ip _ _ _ _ _ _ AI).
+  destruct ok; simpl negb; cbv iota; [|intros X; inversion X; subst; congruence].
+  unfold rl_push. intros X; inversion X. change (aids g2 = aids g). congruence.
+Qed.
+
+Lemma aids_delete id pick g b g' b' : delete_in_bucket id pick g b = Some (g', b') -> aids g' = aids g.
+Proof.
+  unfold delete_in_bucket. destruct (find_ent _ (ents b)) as [[i n]|]; [|intros X; inversion X; auto].
+  destruct (remove_ip g _ (nip (nd n))) as [g1 b2] eqn:RI. pose proof (aids_remove_ip _ _ _ _ _ RI).
+  destruct (node_removed g1 n) as [g2|] eqn:NR; [|discriminate]. pose proof (aids_node_removed _ _ _ NR).
+  destruct (reps b2); [intros X; inversion X; subst; congruence|].
+  destruct (nth_error _ _); [|discriminate]. unfold rl_push. intros X; inversion X. change (aids g2 = aids g). congruence.
+Qed.
+
+Lemma aids_resp id resp nr pick g b g' b' : handle_response_b id resp nr pick g b = Some (g', b') -> aids g' = aids g.
+Proof.
+  unfold handle_response_b. destruct (find_ent _ (ents b)) as [[i n]|]; [|discriminate].
+  destruct (rl n); [|intros X; inversion X; auto]. destruct resp; simpl negb; cbv iota.
+  - destruct (match nr with None => _ | Some r => _ end) as [[[g2 b2] ec]|] eqn:BP; [|discriminate].
+    assert (A2 : aids g2 = aids g).
+    { destruct nr as [r0|]; [|inversion BP; auto].
+      destruct (bump_in_bucket g _ r0 false) as [[[[g3 b3] fd] ec3]|] eqn:B3; [|discriminate]. inversion BP; subst. eapply aids_bump; eauto. }
+    destruct ec; [intros X; inversion X; subst; auto|].
+    destruct (nth_error (ents b2) i); [|discriminate].
+    destruct (move_to_list g2 Slow _) as [[g3 n3]|] eqn:MV; [|discriminate]. apply aids_move in MV. intros X; inversion X; subst. congruence.
+  - destruct (_ =? 0); [apply aids_delete|].
+    destruct (move_to_list g Fast _) as [[g3 n3]|] eqn:MV; [|discriminate]. apply aids_move in MV. intros X; inversion X; subst. auto.
+Qed.
+
+Lemma aids_with_bucket t i f t' :
+  (forall g b g' b', f g b = Some (g', b') -> aids g' = aids g) -> with_bucket t i f = Some t' -> aids (gl t') = aids (gl t).
+Proof. intros Hf H. apply with_bucket_shape in H. destruct H as (b & g' & b' & _ & E & ->). simpl. eapply Hf; eauto. Qed.
+
+Lemma aids_handle_add t n inb f t' : handle_add_node t n inb f = Some t' -> aids (gl t') = aids (gl t).
+Proof.
+  unfold handle_add_node. destruct (nid n =? self t); [intros X; inversion X; auto|].
+  destruct (inb && negb (initd t)); [intros X; inversion X; auto|].
+  apply aids_with_bucket. intros. eapply aids_add_node_b; eauto.
+Qed.
+Lemma aids_add_all ns : forall t t', add_all t ns = Some t' -> aids (gl t') = aids (gl t).
+Proof.
+  induction ns as [|n ns IH]; simpl; intros t t' H; [inversion H; auto|].
+  destruct (handle_add_node t n false false) as [t1|] eqn:E; [|discriminate]. rewrite (IH _ _ H). eapply aids_handle_add; eauto.
+Qed.
+
+Lemma list_eqb_N_eq l l' : l = l' -> list_eqb N.eqb l l' = true.
+Proof. intros ->. apply list_eqb_N_refl. Qed.
+
+(* an answer removes its id - also when the node is no longer in the table; a run only adds ids of the two lists
+   that were not active; nothing else changes the set *)
+Theorem active_is_in_flight t o t' : step t o = Some t' ->
+  match o with
+  | RevalResp id _ _ _ => aids (gl t') = filter (fun x => negb (x =? id)) (aids (gl t))
+  | RevalRun _ _ _ =>
+      (forall x, In x (aids (gl t)) -> In x (aids (gl t'))) /\
+      (forall x, In x (aids (gl t')) -> In x (aids (gl t)) \/ In x (fast (gl t) ++ slow (gl t)))
+  | _ => aids (gl t') = aids (gl t)
+  end.
+Proof.
+  destruct o; simpl; intros H.
+  - inversion H; auto.
+  - eapply aids_handle_add; eauto.
+  - eapply aids_handle_add; eauto.
+  - eapply aids_add_all; eauto.
+  - unfold delete_node in H. eapply aids_with_bucket; eauto. intros. eapply aids_delete; eauto.
+  - unfold reval_run in H.
+    assert (RL : forall g l due ps g' r, reval_list g l due ps = Some (g', r) ->
+              fast g' = fast g /\ slow g' = slow g /\
+              (aids g' = aids g \/ exists x, aids g' = x :: aids g /\ In x (rlist_get g l))).
+    { intros g l due ps g' r. unfold reval_list. destruct due; [|intros X; inversion X; auto].
+      destruct (get g l ps) as [[[x|] r0]|] eqn:G; [| intros X; inversion X; auto | discriminate].
+      unfold start_request. destruct (is_active (active g) x); [discriminate|]. intros X; inversion X. simpl.
+      split; auto. split; auto. right. exists x. split; auto.
+      unfold get in G. destruct (rlist_get g l) as [|y ys] eqn:EL; [inversion G|]. apply rl_get_spec in G. apply G. }
+    destruct (reval_list (gl t) Fast due_fast picks) as [[g1 r1]|] eqn:E1; [|discriminate].
+    destruct (reval_list g1 Slow due_slow r1) as [[g2 r2]|] eqn:E2; [|discriminate]. inversion H; subst t'. simpl.
+    destruct (RL _ _ _ _ _ _ E1) as (F1 & S1 & A1). destruct (RL _ _ _ _ _ _ E2) as (F2 & S2 & A2). simpl in A1, A2.
+    split.
+    + intros x Hx. destruct A2 as [->|(y & -> & _)]; [|right]; destruct A1 as [->|(z & -> & _)]; simpl; auto.
+    + intros x Hx. rewrite in_app_iff.
+      assert (X1 : In x (aids g1) \/ In x (slow (gl t))).
+      { destruct A2 as [E|(y & E & Hy)]; rewrite E in Hx; auto. destruct Hx as [<-|Hx]; auto. right. rewrite <- S1. exact Hy. }
+      destruct X1 as [X1|X1]; auto. destruct A1 as [E|(z & E & Hz)]; rewrite E in X1; auto. destruct X1 as [<-|X1]; auto.
+  - unfold handle_response in H. destruct (find (fun a => fst a =? id) (active (gl t))) as [[id' att]|] eqn:Fd.
+    + assert (FA : aids (set_active (gl t) (filter (fun a : N * bool => negb (fst a =? id)) (active (gl t)))) = filter (fun x => negb (x =? id)) (aids (gl t))).
+      { unfold aids. simpl. generalize (active (gl t)). induction l as [|[i b] l IH]; simpl; auto. destruct (negb (i =? id)); simpl; rewrite IH; auto. }
+      destruct att; simpl negb in H; cbv iota in H; [|inversion H; subst; simpl; exact FA].
+      rewrite <- FA. eapply (aids_with_bucket (set_gl t _)); eauto. intros. eapply aids_resp; eauto.
+    + inversion H; subst. symmetry. apply filter_all. intros x Hx. apply negb_true_iff, N.eqb_neq. intros ->.
+      unfold aids in Hx. apply in_map_iff in Hx. destruct Hx as ([i b] & E & Hin). simpl in E. subst i.
+      pose proof (find_none _ _ Fd _ Hin) as X. simpl in X. rewrite N.eqb_refl in X. discriminate.
+  - unfold track in H. destruct (nth_error _ _) as [b|]; [|discriminate].
+    destruct (_ && _).
+    + destruct (with_bucket _ _ _) as [t2|] eqn:WB; [|discriminate]. rewrite (aids_add_all _ _ _ H).
+      eapply (aids_with_bucket _ _ _ t2) in WB; [exact WB|]. intros. eapply aids_delete; eauto.
+    + rewrite (aids_add_all _ _ _ H). reflexivity.
+Qed.
+
+Theorem pol_active_holds t o t' : step t o = Some t' -> pol_active_b t o t' = true.
+Proof.
+  intros Hs. pose proof (active_is_in_flight t o t' Hs) as A. unfold pol_active_b.
+  destruct o; try (apply list_eqb_N_eq; exact A).
+  destruct A as [A1 A2]. apply andb_true_iff. split; apply forallb_forall; intros x Hx.
+  - apply mem_N_in. auto.
+  - destruct (A2 x Hx) as [H|H]; apply orb_true_iff; [left|right]; apply mem_N_in; auto.
+Qed.
